@@ -102,6 +102,14 @@ def gen_case(rng):
         d0["$parent"] = rng.choice([False, None])
         contents[top] = (ext, [d0])
         meta["kind"] = "parent-stop"
+        if rng.random() < 0.35 and ext != "toml":
+            # "no parent" in one document and a named parent (one name, or two) in ANOTHER document of the same file:
+            # a conflict, reported whatever the number of names
+            contents["cp1"] = ("yaml", [{"cp": 1}])
+            contents["cp2"] = ("json", [{"cp": 2}])
+            d1 = {"$match": None, "extra": 1, "$parent": rng.choice(["cp1", ["cp1"], ["cp1", "cp2"], "cp*"])}
+            contents[top] = (ext if ext in ("yaml", "yml") else "yaml", [d0, d1] if rng.random() < 0.5 else [d1, d0])
+            meta["kind"] = "parent-stop-conflict"
     elif kind < 0.78:
         # wildcard parent: matches base-level files only, never across dots
         contents["w1"] = ("yaml", [{"w": 1}])
